@@ -137,7 +137,7 @@ Proof. intros H. cbn. destruct (fst x <=? t) eqn:E; [reflexivity|lia]. Qed.
 
 Lemma ms_positions_newest h x t : fst x <= t -> positions (h ++ [x]) t = Some (snd x).
 Proof.
-  intros H. unfold positions, h_get. rewrite rev_app_distr. cbn [rev app].
+  intros H. unfold positions, positions_r, h_get. rewrite rev_app_distr. cbn [rev app].
   rewrite get_back_head by exact H. reflexivity.
 Qed.
 
